@@ -64,7 +64,7 @@ type mkStruct struct {
 }
 
 func genContractCase(r *Rng) contractCase {
-	switch r.intn(22) {
+	switch r.intn(26) {
 	case 0, 1:
 		a, b := int64(r.next())>>uint(r.intn(64)), int64(r.next())>>uint(r.intn(64))
 		switch r.intn(4) {
@@ -383,6 +383,90 @@ func genContractCase(r *Rng) contractCase {
 			}
 			return ""
 		}}
+	case 21, 22:
+		// rune generators that can yield values which are not code points (negative, surrogates, > MaxRune)
+		lo, hi := int32(-3), int32('z')
+		switch r.intn(3) {
+		case 1:
+			lo, hi = 0xD7FE, 0xE001 // straddles the surrogate range
+		case 2:
+			lo, hi = 0x10FFFE, 0x110002 // straddles MaxRune
+		}
+		minR, maxR := r.intn(3), -1
+		if r.chance(70) {
+			maxR = minR + r.intn(4)
+		}
+		maxLen := -1
+		if r.chance(70) {
+			base := minR
+			if maxR >= 0 {
+				base = maxR
+			}
+			maxLen = base + r.intn(6)
+		}
+		g := rapid.StringOfN(rapid.Int32Range(lo, hi), minR, maxR, maxLen)
+		return contractCase{fmt.Sprintf("StringOfN(Int32Range(%d,%d),%d,%d,%d)", lo, hi, minR, maxR, maxLen), func(t *rapid.T) string {
+			s := g.Draw(t, "s")
+			if !utf8.ValidString(s) {
+				return "invalid UTF-8"
+			}
+			n := 0
+			for _, c := range s {
+				n++
+				if c < lo || c > hi {
+					return fmt.Sprintf("rune %U is not a value of the element generator", c)
+				}
+			}
+			if n < minR || (maxR >= 0 && n > maxR) {
+				return fmt.Sprintf("%d runes outside [%d,%d]", n, minR, maxR)
+			}
+			if maxLen >= 0 && len(s) > maxLen {
+				return fmt.Sprintf("%d bytes > maxLen %d", len(s), maxLen)
+			}
+			return ""
+		}}
+	case 23:
+		// degenerate inputs: empty / nil / one-element domains, zero lengths
+		var empty []int
+		gp0, gp1 := rapid.Permutation(empty), rapid.Permutation([]int{7})
+		gs0 := rapid.SliceOfN(rapid.Int(), 0, 0)
+		gm0 := rapid.MapOfN(rapid.Int(), rapid.Int(), 0, 0)
+		gst0 := rapid.StringN(0, 0, 0)
+		gd1 := rapid.SliceOfNDistinct(rapid.Just(1), 0, 1, rapid.ID[int])
+		return contractCase{"degenerate(Permutation(nil),len 0,one-element)", func(t *rapid.T) string {
+			if p := gp0.Draw(t, "p0"); len(p) != 0 {
+				return "Permutation of an empty slice is not empty"
+			}
+			if p := gp1.Draw(t, "p1"); len(p) != 1 || p[0] != 7 {
+				return "Permutation of a one-element slice"
+			}
+			if v := gs0.Draw(t, "s0"); len(v) != 0 {
+				return "SliceOfN(0,0) not empty"
+			}
+			if v := gm0.Draw(t, "m0"); len(v) != 0 {
+				return "MapOfN(0,0) not empty"
+			}
+			if v := gst0.Draw(t, "st0"); v != "" {
+				return "StringN(0,0,0) not empty"
+			}
+			if v := gd1.Draw(t, "d1"); len(v) > 1 {
+				return "distinct slice over a one-element domain has duplicates"
+			}
+			return ""
+		}}
+	case 24:
+		// Make for container types: requested dynamic type, element contracts
+		gm := rapid.Make[map[int8][]uint8]()
+		ga := rapid.Make[[3]*bool]()
+		return contractCase{"Make[map/array]", func(t *rapid.T) string {
+			if v := gm.Draw(t, "m"); reflect.TypeOf(v) != reflect.TypeOf(map[int8][]uint8{}) {
+				return "wrong dynamic type"
+			}
+			if v := ga.Draw(t, "a"); len(v) != 3 {
+				return "wrong array length"
+			}
+			return ""
+		}}
 	}
 	g := rapid.SliceOfN(rapid.SliceOfN(rapid.Bool(), 0, 2), 1, 2)
 	return contractCase{"SliceOfN(SliceOfN(Bool))", func(t *rapid.T) string {
@@ -479,23 +563,36 @@ var intKinds = []intKind{
 	{"Byte", false, 8, func(t *rapid.T) (int64, uint64) { return 0, uint64(rapid.Byte().Draw(t, "v")) }},
 }
 
+// failHow: the ways a property can fail; the message of 1 and 2 depends on the drawn data
+func failHow(t *rapid.T, how int, data string) {
+	switch how {
+	case 1:
+		panic("beyond: " + data)
+	case 2:
+		t.Errorf("beyond: %s", data)
+	default:
+		t.Fatalf("beyond")
+	}
+}
+
 // runThreshold runs Check on "fails iff value at or beyond T" and returns the value of the final replay
-func runThreshold(k intKind, neg bool, thr uint64, seed uint64) (got string, want string, verdict string) {
+func runThreshold(k intKind, neg bool, thr uint64, seed uint64, how int) (got string, want string, verdict string) {
 	var lastI int64
 	var lastU uint64
 	prop := func(t *rapid.T) {
 		i, u := k.draw(t)
 		lastI, lastU = i, u
+		fail := func() { failHow(t, how, fmt.Sprint(i, u)) }
 		if k.signed {
 			if neg {
 				if i <= -int64(thr) && thr != 0 || (thr == 1<<63 && i == math.MinInt64) {
-					t.Fatalf("beyond")
+					fail()
 				}
 			} else if i >= 0 && uint64(i) >= thr {
-				t.Fatalf("beyond")
+				fail()
 			}
 		} else if u >= thr {
-			t.Fatalf("beyond")
+			fail()
 		}
 	}
 	old := setFlags(300, seed, 10*time.Second, true)
@@ -573,8 +670,13 @@ func cmdC12Oracle(args []string) {
 			thr = 1
 		}
 		sd := r.next() | 1
-		got, want, verdict := runThreshold(k, neg, thr, sd)
+		how := r.intn(3)
+		got, want, verdict := runThreshold(k, neg, thr, sd, how)
+		if verdict == "panic" {
+			verdict = "failed"
+		}
 		stats["thresholds"]++
+		stats[fmt.Sprintf("fail_how_%d", how)]++
 		stats["bits:"+fmt.Sprint(bits.Len64(thr))]++
 		if verdict != "failed" {
 			stats["not_found_in_300_cases"]++ // the failing region was not hit: nothing to minimize (C18 territory)
@@ -596,6 +698,7 @@ func cmdC12Oracle(args []string) {
 		sd := r.next() | 1
 		var lastLen int
 		var allZero bool
+		howc := r.intn(3)
 		prop := func(t *rapid.T) {
 			switch which {
 			case 0:
@@ -612,7 +715,7 @@ func cmdC12Oracle(args []string) {
 				lastLen, allZero = len(m), true
 			}
 			if lastLen >= k {
-				t.Fatalf("long")
+				failHow(t, howc, fmt.Sprint(lastLen))
 			}
 		}
 		old := setFlags(400, sd, 10*time.Second, true)
@@ -621,7 +724,7 @@ func cmdC12Oracle(args []string) {
 		rapid.VerifSetFlags(old)
 		verdict, _, _, _, _ := classifyTB(tb)
 		stats["collection_thresholds"]++
-		if verdict != "failed" {
+		if verdict != "failed" && verdict != "panic" {
 			stats["collection_not_found"]++
 			continue
 		}
@@ -804,6 +907,16 @@ func cmdC18Oracle(args []string) {
 		stats["distinct_case_sequences"] = len(seen)
 		if len(seen) < 12 {
 			fails = append(fails, map[string]any{"property": "C18", "what": "Check calls without -rapid.seed repeat a fixed sequence of test cases within one process", "distinct": len(seen), "index": -3})
+		}
+		// many base seeds drawn in one process are pairwise different (a counter that wraps, a cached seed ... repeat)
+		many := map[uint64]bool{}
+		for k := 0; k < 2000; k++ {
+			many[rapid.VerifBaseSeed()] = true
+		}
+		stats["base_seeds_drawn_in_process"] = 2000
+		stats["distinct_base_seeds_in_process"] = len(many)
+		if len(many) < 2000 {
+			fails = append(fails, map[string]any{"property": "C18", "what": "base seeds repeat within one process", "distinct": len(many), "of": 2000, "index": -5})
 		}
 		exe, _ := os.Executable()
 		seeds := map[string]bool{}
